@@ -138,7 +138,9 @@ impl PackSizer {
             // The cast actually shouldn't pose any problems.
             // `current_size` is `u64`, the maximum value is `2^64-1`.
             // `isqrt(2^64-1) = 2^32-1` which fits into a `u32`. (@aawsome)
-            self.current_size.integer_sqrt() as u32 * self.grow_factor + self.default_size
+            (self.current_size.integer_sqrt() as u32)
+                .saturating_mul(self.grow_factor)
+                .saturating_add(self.default_size)
         };
         size.min(self.size_limit).min(constants::MAX_SIZE)
     }
